@@ -43,7 +43,7 @@ def count_cells(x, res, path=()):
 
 def run_shard(tier, seed, idx, n, res, tmp):
     b = budget(tier)
-    for ci in range(idx, b['models'], n):
+    for ci in common.case_range(idx, b['models'], n, res):
         cs = common.case_seed(PROPERTY, seed, ci)
         m = gm.generate(cs, gm.make_profile(p_linebreak_literal=0.15))
         exp = irexpect.expect(m)
